@@ -3,7 +3,7 @@
    the executable instance used by the correspondence is an instance of the theorems. *)
 Require Import List ZArith Arith Lia Bool Relations.
 From Dasp Require Import Base.Res Base.ListX Graph.Dfs Graph.Process Graph.ProcessSpec Graph.DfsProofs
-  Graph.ProcessProofs Graph.EvalProofs Graph.ExtraProofs Graph.GraphRun.
+  Graph.ProcessProofs Graph.EvalProofs Graph.ExtraProofs Graph.ProcessPanic Graph.ProcessPanicProofs Graph.GraphRun.
 Import ListNotations.
 
 (* decidable sufficient conditions for the hypotheses *)
@@ -42,7 +42,7 @@ Qed.
 (* the graph a script builds *)
 Definition built (ops : list zop) : graph znode :=
   fst (fold_left (fun st o => match zstep st o with Ok (st', _) => st' | _ => st end) ops
-                 (empty_graph, new_processor)).
+                 (empty_graph, new_fprocessor)).
 
 Local Open Scope Z_scope.
 
@@ -60,23 +60,25 @@ Qed.
 (* every graph a script reaches satisfies the hypothesis of the theorems *)
 Lemma zstep_wf g p o g' p' obs : wf g -> zstep (g, p) o = Ok ((g', p'), obs) -> wf g'.
 Proof.
-  intros Hwf. destruct o as [k b|a b|a|o| |]; cbn [zstep].
+  intros Hwf. destruct o as [k b|a b|a|o| | |a]; cbn [zstep].
   - destruct (add_node _ g) as [g1 i] eqn:Ha. intros H.
     apply (f_equal (fun r => match r with Ok x => fst (fst x) | _ => g end)) in H. cbn [fst] in H. subst g'.
-    pose proof (wf_add_node g {| ident := 0; kind := k; count := 0; val := 0; nbufs := n b |} Hwf) as H1.
+    pose proof (wf_add_node g {| ident := 0; kind := k; count := 0; val := 0; nbufs := n b; armed := false |} Hwf) as H1.
     rewrite Ha in H1. cbn [fst] in H1.
     now apply wf_set_weight_any.
   - destruct (add_edge _ _ g) as [g1| |] eqn:Ha; cbn [bind]; try discriminate.
     intros [= <- _ _]. eapply wf_add_edge; eauto.
   - destruct (remove_node _ g) as [g1 r] eqn:Ha. intros [= <- _ _].
     pose proof (wf_remove_node g (n a) Hwf) as H1. now rewrite Ha in H1.
-  - destruct (live g (n o)) eqn:Hl.
-    + destruct (process_spec zbufs znproc p g (n o) Hwf Hl) as (p1 & order & Hrun & _).
-      rewrite Hrun. cbn [bind]. intros [= <- _ _].
-      eapply shape_wf; [apply shape_spec_run|exact Hwf].
-    + destruct (process_no_node zbufs znproc p g (n o) Hl) as [k Hk]. rewrite Hk. discriminate.
+  - destruct (process_f zbufs znproc znfail p g (n o)) as [[[[p1 g1] l1] r1]| |] eqn:Hp; cbn [bind]; try discriminate.
+    intros H. apply (f_equal (fun r => match r with Ok x => fst (fst x) | _ => g end)) in H. cbn [fst] in H. subst g'.
+    eapply shape_wf; [eapply process_f_shape; exact Hp|exact Hwf].
   - intros [= <- _ _]. exact Hwf.
   - intros [= <- _ _]. exact Hwf.
+  - destruct (weight g (n a)) as [w|].
+    + intros H. apply (f_equal (fun r => match r with Ok x => fst (fst x) | _ => g end)) in H. cbn [fst] in H. subst g'.
+      now apply wf_set_weight_any.
+    + intros [= <- _ _]. exact Hwf.
 Qed.
 
 (* ---------- a diamond: 0 -> 1 -> 3, 0 -> 2 -> 3 ---------- *)
@@ -174,6 +176,30 @@ Example metered_run :
   end /\
   match process zbufs znproc new_processor metered 1 with
   | Ok (_, _, log) => map (@who zbuf) log = [0; 1]%nat
+  | _ => False
+  end.
+Proof. vm_compute. repeat split; reflexivity. Qed.
+
+(* ---------- a node panics once: chain 0 -> 1 -> 2, node 1 armed ---------- *)
+Definition chain_armed := built [ZN 0 1; ZN 0 1; ZN 0 1; ZE 0 1; ZE 1 2; ZA 1].
+
+Example chain_armed_wf : wf chain_armed.
+Proof. apply wfb_wf. vm_compute. reflexivity. Qed.
+
+(* the first call is aborted at node 1 (node 0 processed, node 2 not); the processor it leaves
+   behind (traversal half done: 2 and 1 still stacked; inputs vector = [0]) then processes the
+   chain exactly as a new processor does: node 0 gets no input, in particular not its own buffers *)
+Example chain_armed_run :
+  match process_f zbufs znproc znfail new_fprocessor chain_armed 2 with
+  | Ok (p1, g1, log1, r1) =>
+    r1 = NodePanic 1 /\ map (@who zbuf) log1 = [0; 1]%nat /\
+    stack (dfs (base p1)) = [2]%nat /\ inputs p1 = [0]%nat /\
+    match process_f zbufs znproc znfail p1 g1 2 with
+    | Ok (_, _, log2, r2) =>
+      r2 = Done /\ map (@who zbuf) log2 = [0; 1; 2]%nat /\ map (@from zbuf) log2 = [[]; [0]; [1]]%nat
+    | _ => False
+    end /\
+    foutcome (process_f zbufs znproc znfail p1 g1 2) = foutcome (process_f zbufs znproc znfail new_fprocessor g1 2)
   | _ => False
   end.
 Proof. vm_compute. repeat split; reflexivity. Qed.
